@@ -219,11 +219,11 @@ func storageExec(e *env, fs fileset) []res {
 				d = driver.NewConfigMaps(cs.CoreV1().ConfigMaps("default"))
 			}
 			if err := d.Create(keyGood1, goodRelease(1, rspb.StatusSuperseded)); err != nil {
-				e.c.NotExhaustive("storage setup: %v", err)
+				out = append(out, res{Stage: "setup", Kind: "harness", Detail: err.Error()})
 				return nil
 			}
 			if err := d.Create(keyGood3, goodRelease(3, rspb.StatusDeployed)); err != nil {
-				e.c.NotExhaustive("storage setup: %v", err)
+				out = append(out, res{Stage: "setup", Kind: "harness", Detail: err.Error()})
 				return nil
 			}
 			meta := metav1.ObjectMeta{Name: keyBad, Namespace: "default", Labels: labels}
@@ -242,7 +242,7 @@ func storageExec(e *env, fs fileset) []res {
 				_, err = cs.CoreV1().ConfigMaps("default").Create(context.Background(), obj, metav1.CreateOptions{})
 			}
 			if err != nil {
-				e.c.NotExhaustive("storage setup (deviated record): %v", err)
+				out = append(out, res{Stage: "setup", Kind: "harness", Detail: "deviated record: " + err.Error()})
 				return nil
 			}
 			return d
